@@ -184,16 +184,14 @@ func verifNDFields(name string, maxFields, depth, elems, strLen int) []physical.
 
 // VerifC26Value: every value (depth <= D, <= E elements, strings <= S bytes) survives
 // NativeValueToProto / ToNativeValue unchanged (field by field and under Compare). SYMDUR=1:
-// durations are arbitrary everywhere; SYMDUR=0: arbitrary at the top level, drawn from
-// verifDurations inside containers (two arbitrary durations in one value are two of the slow
-// x/1e9*1e9 kernels in one query, which the solvers do not decide in time).
+// durations are arbitrary; SYMDUR=0: durations are drawn from verifDurations (two arbitrary
+// durations in one value are two of the slow x/1e9*1e9 kernels in one query, which the solvers do
+// not decide in time; the arbitrary duration is covered by the SYMDUR=1 instance with E=1).
 func VerifC26Value() {
 	D, E, S := zzverif.Param("D"), zzverif.Param("E"), zzverif.Param("S")
 	var v octosql.Value
 	if zzverif.Param("SYMDUR") == 1 {
 		v = octosql.VerifNDValue("v", D, E, S)
-	} else if zzverif.Choice("v.top-level-duration", 2) == 1 {
-		v = octosql.VerifNDScalar("v", octosql.VKDuration, S)
 	} else {
 		v = verifNDValue("v", D, E, S)
 	}
